@@ -50,7 +50,8 @@ def gen_times(rng, n):
 
 
 def run_case(ctx, rng, k, kind='plain'):
-    n = rng.range(1, 14)
+    # mostly small files; every 12th file spans more than one 64 KiB block (171+ records)
+    n = rng.range(171, 230) if k % 12 == 5 else rng.range(1, 14)
     times = gen_times(rng, n)
     if all(t == (0, 0) for t in times):
         times[0] = (1700000001, 1)
